@@ -214,9 +214,9 @@ pub fn gen_manifest(rng: &mut Rng, dup_outputs: bool) -> AManifest {
                 for _ in 0..no {
                     let o = if dup_outputs && !outputs.is_empty() && rng.chance(1, 3) {
                         let base = outputs[rng.below(outputs.len())].clone();
-                        match rng.below(3) { 0 => format!("./{}", base), 1 => format!("zz/../{}", base), _ => base }
+                        match rng.below(6) { 0 => format!("./{}", base), 1 => format!("zz/../{}", base), 2 => format!("zz\\..\\{}", base), 3 => format!(".\\{}", base), _ => base }
                     } else { let o = format!("out{}", counter); counter += 1; o };
-                    outputs.push(o.trim_start_matches("./").trim_start_matches("zz/../").to_string());
+                    outputs.push(o.trim_start_matches("./").trim_start_matches("zz/../").trim_start_matches("zz\\..\\").trim_start_matches(".\\").to_string());
                     b.outs.push(vec![Tok::Lit(o)]);
                     if dup_outputs && rng.chance(1, 4) { let again = b.outs[b.outs.len() - 1].clone(); b.outs.push(again); if rng.chance(1, 2) { let again = b.outs[0].clone(); b.outs.push(again); } }
                 }
